@@ -15,8 +15,9 @@ ls seeded | grep '^C' | xargs -P 4 -I{} sh -c '
   id={}
   props=$(/venv/bin/python -c "import json,sys; c=json.load(open(\"seeded/$id/meta.json\"))[\"command\"]; print(c.split(\"--props\")[1].split()[0])")
   r=$(./tools_seeded.py seeded/$id --props $props --skip-tests 2>/dev/null | /venv/bin/python -c "import json,sys; d=json.load(sys.stdin); print(d.get(\"detected_by\"), d.get(\"demo_without_patch\"), d.get(\"demo_with_patch\"), d.get(\"apply_failed\",\"\")[:80])")
-  echo "$id $r" >> '"$out"'
+  st=$(/venv/bin/python -c "import json; print(\"NEUTRALISED\" if json.load(open(\"seeded/$id/meta.json\")).get(\"status\") else \"\")")
+  echo "$id $r $st" >> '"$out"'
 '
 git -C /verif worktree remove --force "$snap"
 sort "$out" -o "$out"
-echo "detected: $(grep -c "\[.C" "$out") of $(wc -l < "$out")"
+echo "detected: $(grep -c "\[.C" "$out") of $(wc -l < "$out") (neutralised by a later repair: $(grep -c NEUTRALISED "$out"))"
